@@ -1,0 +1,152 @@
+//go:build verif
+
+package search
+
+// Contracts of the b6vc verifier (/verif) for C06.
+
+//@ func vRank
+//@   opaque
+//@ func kRank
+//@   opaque
+//@ func sLen
+//@   opaque
+//@ func sRank
+//@   opaque
+
+// ---- assumed: the Values implementation is a consistent total preorder ---------------
+//@ func Values.Compare
+//@   trusted
+//@   ensures result == cmp3(vRank(a), vRank(b))
+//@ func Values.CompareKey
+//@   trusted
+//@   ensures result == cmp3(vRank(v), kRank(k))
+//@ func Values.Key
+//@   trusted
+//@   ensures kRank(result) == vRank(v)
+
+// ---- the Iterator interface as its clients see it -------------------------------------
+// Next moves to the following value if there is one (otherwise the position stays where
+// it is and Next reports false - the existing tests pin that Value() is unchanged then).
+// Advance(key) moves forward to the first value at or after the current one that is not
+// less than key, without skipping any such value; when there is none the position
+// becomes sLen. Value reports the current value.
+//@ func Iterator.Next
+//@   trusted
+//@   gset spos self = ite(old(ghostf("spos", self)) + 1 < sLen(self), old(ghostf("spos", self)) + 1, old(ghostf("spos", self)))
+//@   ensures result == (old(ghostf("spos", self)) + 1 < sLen(self))
+//@ func Iterator.Advance
+//@   trusted
+//@   ghavoc spos self
+//@   ensures ghostf("spos", self) >= old(ghostf("spos", self)) && ghostf("spos", self) >= 0 && ghostf("spos", self) <= sLen(self)
+//@   ensures result == (ghostf("spos", self) < sLen(self))
+//@   ensures implies(result, sRank(self, ghostf("spos", self)) >= kRank(key))
+//@   ensures forall(i, 0, ghostf("spos", self), implies(i >= old(ghostf("spos", self)), sRank(self, i) < kRank(key)))
+//@ func Iterator.Value
+//@   trusted
+//@   ensures implies(0 <= ghostf("spos", self) && ghostf("spos", self) < sLen(self), vRank(result) == sRank(self, ghostf("spos", self)))
+//@ func Iterator.EstimateLength
+//@   trusted
+
+// ---- arrayIndexIterator implements that contract ------------------------------------
+// Representation: sLen = len(list), sRank(i) = vRank(list[i]), spos = a.i; the list is
+// strictly increasing (ArrayIndex.Finish sorts and deduplicates it).
+//@ func (*arrayIndexIterator).Next
+//@   requires a != nil && a.i >= -1 && a.i <= len(a.list)
+//@   modifies *a
+//@   ensures result == (old(a.i) + 1 < len(a.list))
+//@   ensures a.i == ite(old(a.i) + 1 < len(a.list), old(a.i) + 1, old(a.i))
+//@   ensures len(a.list) == old(len(a.list)) && base(a.list) == old(base(a.list)) && a.values == old(a.values)
+
+//@ func (*arrayIndexIterator).Advance
+//@   requires a != nil && a.values != nil && a.i >= -1 && a.i <= len(a.list)
+//@   requires forallpair(p, q, 0, len(a.list), implies(p < q, vRank(a.list[p]) < vRank(a.list[q])), a.list[p], a.list[q])
+//@   modifies *a
+//@   ensures a.i >= old(a.i) && a.i >= 0 && a.i <= len(a.list)
+//@   ensures result == (a.i < len(a.list))
+//@   ensures implies(result, vRank(a.list[a.i]) >= kRank(key))
+//@   ensures forall(p, 0, a.i, implies(p >= old(a.i), vRank(a.list[p]) < kRank(key)))
+//@   ensures len(a.list) == old(len(a.list)) && base(a.list) == old(base(a.list)) && a.values == old(a.values)
+
+//@ func (*arrayIndexIterator).Value
+//@   requires a != nil && 0 <= a.i && a.i < len(a.list)
+//@   ensures result == a.list[a.i]
+
+// ---- keyRange: the inner iterator restricted to begin <= key < end ---------------------
+// Stated over the inner iterator's abstract sequence (strictly increasing ranks). Proved
+// for every call from every state: a reported value lies inside [begin, end); the inner
+// iterator only moves forward; values passed over are below begin (first call) or below
+// the requested key (Advance) - nothing inside the range is skipped; and once the inner
+// iterator has reached end (or run out) no later call reports a value.
+//@ func (*keyRange).Next
+//@   requires k != nil && k.iterator != nil && k.values != nil
+//@   requires implies(!k.started, ghostf("spos", k.iterator) == -1)
+//@   requires implies(k.started, ghostf("spos", k.iterator) >= 0 && ghostf("spos", k.iterator) <= sLen(k.iterator))
+//@   modifies *k
+//@   ghavoc spos k.iterator
+//@   ensures k.started && k.iterator == old(k.iterator) && k.values == old(k.values) && k.begin == old(k.begin) && k.end == old(k.end)
+//@   ensures ghostf("spos", k.iterator) >= old(ghostf("spos", k.iterator)) && ghostf("spos", k.iterator) >= 0 && ghostf("spos", k.iterator) <= sLen(k.iterator)
+//@   ensures implies(result, ghostf("spos", k.iterator) < sLen(k.iterator) && sRank(k.iterator, ghostf("spos", k.iterator)) < kRank(k.end))
+//@   ensures implies(result && !old(k.started), sRank(k.iterator, ghostf("spos", k.iterator)) >= kRank(k.begin))
+//@   ensures implies(!old(k.started), forall(i, 0, ghostf("spos", k.iterator), sRank(k.iterator, i) < kRank(k.begin)))
+//@   ensures implies(old(k.started), ghostf("spos", k.iterator) <= old(ghostf("spos", k.iterator)) + 1)
+//@   ensures implies(!result && ghostf("spos", k.iterator) < sLen(k.iterator) && ghostf("spos", k.iterator) > old(ghostf("spos", k.iterator)), sRank(k.iterator, ghostf("spos", k.iterator)) >= kRank(k.end))
+
+//@ func (*keyRange).Advance
+//@   requires k != nil && k.iterator != nil && k.values != nil
+//@   requires implies(!k.started, ghostf("spos", k.iterator) == -1)
+//@   requires implies(k.started, ghostf("spos", k.iterator) >= 0 && ghostf("spos", k.iterator) <= sLen(k.iterator))
+//@   modifies *k
+//@   ghavoc spos k.iterator
+//@   ensures k.started && k.iterator == old(k.iterator) && k.values == old(k.values) && k.begin == old(k.begin) && k.end == old(k.end)
+//@   ensures ghostf("spos", k.iterator) >= old(ghostf("spos", k.iterator)) && ghostf("spos", k.iterator) >= 0 && ghostf("spos", k.iterator) <= sLen(k.iterator)
+//@   ensures implies(result, ghostf("spos", k.iterator) < sLen(k.iterator) && sRank(k.iterator, ghostf("spos", k.iterator)) < kRank(k.end) && sRank(k.iterator, ghostf("spos", k.iterator)) >= kRank(key))
+//@   ensures implies(result && !old(k.started), sRank(k.iterator, ghostf("spos", k.iterator)) >= kRank(k.begin))
+//@   ensures forall(i, 0, ghostf("spos", k.iterator), implies(i >= old(ghostf("spos", k.iterator)), sRank(k.iterator, i) < kRank(key) || sRank(k.iterator, i) < kRank(k.begin)))
+
+//@ func (*keyRange).Value
+//@   requires k != nil && k.iterator != nil
+//@   ensures implies(0 <= ghostf("spos", k.iterator) && ghostf("spos", k.iterator) < sLen(k.iterator), vRank(result) == sRank(k.iterator, ghostf("spos", k.iterator)))
+
+// ---- intersection ---------------------------------------------------------------------
+// Every iterator of the list is a distinct object with its own position. When
+// advanceToNextIntersecion reports true every iterator is positioned on a value of one
+// and the same rank - the reported value is in every input. All iterators only move
+// forward. (That no common value is passed over follows from the Advance contract of
+// each move - an iterator is only advanced to the current key of another one - but is
+// not stated as a postcondition here; termination is not proved.)
+//@ func (*intersection).advanceToNextIntersecion
+//@   requires in != nil && in.values != nil && len(in.iterators) >= 1
+//@   requires forall(p, 0, len(in.iterators), in.iterators[p] != nil)
+//@   requires forallpair(p, q, 0, len(in.iterators), implies(p != q, ref(in.iterators[p]) != ref(in.iterators[q])), in.iterators[p], in.iterators[q])
+//@   requires 0 <= ghostf("spos", in.iterators[0]) && ghostf("spos", in.iterators[0]) < sLen(in.iterators[0])
+//@   ghavoc spos in.iterators[0]
+//@   loop 1 invariant len(in.iterators) == old(len(in.iterators)) && base(in.iterators) == old(base(in.iterators)) && in.values == old(in.values)
+//@   loop 1 invariant forall(p, 0, len(in.iterators), in.iterators[p] == old(in.iterators[p]))
+//@   loop 1 invariant 0 <= ghostf("spos", in.iterators[0]) && ghostf("spos", in.iterators[0]) < sLen(in.iterators[0])
+//@   loop 1 invariant forall(p, 0, len(in.iterators), ghostf("spos", in.iterators[p]) >= old(ghostf("spos", in.iterators[p])))
+//@   loop 2 invariant len(in.iterators) == old(len(in.iterators)) && base(in.iterators) == old(base(in.iterators)) && in.values == old(in.values)
+//@   loop 2 invariant forall(p, 0, len(in.iterators), in.iterators[p] == old(in.iterators[p]))
+//@   loop 2 invariant 1 <= i && i <= len(in.iterators) && intersected
+//@   loop 2 invariant 0 <= ghostf("spos", in.iterators[0]) && ghostf("spos", in.iterators[0]) < sLen(in.iterators[0])
+//@   loop 2 invariant forall(p, 0, len(in.iterators), ghostf("spos", in.iterators[p]) >= old(ghostf("spos", in.iterators[p])))
+//@   loop 2 invariant forall(p, 1, i, 0 <= ghostf("spos", in.iterators[p]) && ghostf("spos", in.iterators[p]) < sLen(in.iterators[p]) && sRank(in.iterators[p], ghostf("spos", in.iterators[p])) == sRank(in.iterators[0], ghostf("spos", in.iterators[0])))
+//@   ensures forall(p, 0, len(in.iterators), ghostf("spos", in.iterators[p]) >= old(ghostf("spos", in.iterators[p])))
+//@   ensures implies(result, 0 <= ghostf("spos", in.iterators[0]) && ghostf("spos", in.iterators[0]) < sLen(in.iterators[0]))
+//@   ensures implies(result, forall(p, 1, len(in.iterators), 0 <= ghostf("spos", in.iterators[p]) && ghostf("spos", in.iterators[p]) < sLen(in.iterators[p]) && sRank(in.iterators[p], ghostf("spos", in.iterators[p])) == sRank(in.iterators[0], ghostf("spos", in.iterators[0]))))
+
+//@ func (*intersection).Next
+//@   requires in != nil && in.values != nil && len(in.iterators) >= 1
+//@   requires forall(p, 0, len(in.iterators), in.iterators[p] != nil)
+//@   requires forallpair(p, q, 0, len(in.iterators), implies(p != q, ref(in.iterators[p]) != ref(in.iterators[q])), in.iterators[p], in.iterators[q])
+//@   requires ghostf("spos", in.iterators[0]) >= -1 && ghostf("spos", in.iterators[0]) <= sLen(in.iterators[0])
+//@   ensures implies(result, 0 <= ghostf("spos", in.iterators[0]) && ghostf("spos", in.iterators[0]) < sLen(in.iterators[0]))
+//@   ensures implies(result, ghostf("spos", in.iterators[0]) > old(ghostf("spos", in.iterators[0])))
+//@   ensures implies(result, forall(p, 1, len(in.iterators), 0 <= ghostf("spos", in.iterators[p]) && ghostf("spos", in.iterators[p]) < sLen(in.iterators[p]) && sRank(in.iterators[p], ghostf("spos", in.iterators[p])) == sRank(in.iterators[0], ghostf("spos", in.iterators[0]))))
+
+//@ func (*intersection).Advance
+//@   requires in != nil && in.values != nil && len(in.iterators) >= 1
+//@   requires forall(p, 0, len(in.iterators), in.iterators[p] != nil)
+//@   requires forallpair(p, q, 0, len(in.iterators), implies(p != q, ref(in.iterators[p]) != ref(in.iterators[q])), in.iterators[p], in.iterators[q])
+//@   requires forallpair(i, j, 0, sLen(in.iterators[0]), implies(i < j, sRank(in.iterators[0], i) < sRank(in.iterators[0], j)), sRank(in.iterators[0], i), sRank(in.iterators[0], j))
+//@   ensures implies(result, 0 <= ghostf("spos", in.iterators[0]) && ghostf("spos", in.iterators[0]) < sLen(in.iterators[0]) && sRank(in.iterators[0], ghostf("spos", in.iterators[0])) >= kRank(to))
+//@   ensures implies(result, forall(p, 1, len(in.iterators), 0 <= ghostf("spos", in.iterators[p]) && ghostf("spos", in.iterators[p]) < sLen(in.iterators[p]) && sRank(in.iterators[p], ghostf("spos", in.iterators[p])) == sRank(in.iterators[0], ghostf("spos", in.iterators[0]))))
